@@ -746,6 +746,13 @@ def sibling_hash_tables(ctx, rid, modnames=None):
                     kv = k.value
                 elif isinstance(k, ast.UnaryOp) and isinstance(k.op, ast.USub) and isinstance(k.operand, ast.Constant):
                     kv = -k.operand.value
+                elif isinstance(k, (ast.Attribute, ast.Name)):
+                    try:
+                        kv = ctx.ev.const(k, m)  # a named constant (cose_alg_sha_256.name, ...)
+                    except AnalysisError:
+                        kv = None
+                    if not isinstance(kv, (str, int)):
+                        kv = None
                 keys.append(kv)
             if not all(k in HASH_KEYS for k in keys):
                 continue
